@@ -121,7 +121,7 @@ type Result struct {
 	SwitchPairs    int
 	UnknownYields  int64
 	UnknownSpawns  int64
-	VirtualElapsed time.Duration
+	VirtualElapsed time.Duration // excluding the jumps made to confirm a stall
 	Panics         []PanicRec
 	MaxLive        int
 }
@@ -173,6 +173,8 @@ type Sim struct {
 	unknownSpawns atomic.Int64
 
 	classCount [numClasses]int64
+
+	stallJumped time.Duration
 
 	ev       evLog
 	counters [NumCounters]int64
@@ -260,7 +262,7 @@ func New(cfg Config, ch Chooser) *Sim {
 		s.cfg.MaxSteps = 5_000_000
 	}
 	if cfg.StallAdvance == 0 {
-		s.cfg.StallAdvance = 20 * 365 * 24 * time.Hour
+		s.cfg.StallAdvance = 365 * 24 * time.Hour
 	}
 	if cfg.KeepLog {
 		s.log = make([]StepRec, 0, 1<<16)
@@ -359,7 +361,7 @@ func (s *Sim) body(g *G) {
 		return
 	}
 	defer func() {
-		if r := recover(); r != nil {
+		if r := recover(); r != nil && !s.poison {
 			var buf [16384]byte
 			n := runtime.Stack(buf[:], false)
 			s.recordPanic(g, r, string(buf[:n]))
@@ -831,12 +833,12 @@ func (s *Sim) Run(main func()) *Result {
 				continue
 			}
 			// nothing happened within the stall horizon
-			if g := s.find(stStallWait); g != nil && stallRounds < 8 {
+			if g := s.find(stStallWait); g != nil && stallRounds < 64 {
 				stallRounds++
 				g.state = stParked
 				continue
 			}
-			if g := s.find(stBlockedOrStall); g != nil && stallRounds < 8 {
+			if g := s.find(stBlockedOrStall); g != nil && stallRounds < 64 {
 				stallRounds++
 				g.stalled = true
 				g.state = stParked
@@ -867,7 +869,7 @@ func (s *Sim) Run(main func()) *Result {
 		g.state = stOut
 		g.release <- struct{}{}
 	}
-	s.res.VirtualElapsed = time.Since(s.start)
+	s.res.VirtualElapsed = time.Since(s.start) - s.stallJumped
 	s.res.Steps = s.steps
 	s.res.Digest = s.digest
 	s.res.SwitchPairs = s.npairs
@@ -899,6 +901,7 @@ func (s *Sim) advance() bool {
 		t.Stop()
 		return true
 	case <-t.C:
+		s.stallJumped += s.cfg.StallAdvance
 		return false
 	}
 }
